@@ -25,6 +25,40 @@ def flag_of_operand(B, o):
     return out
 
 
+def copy_of_local(B, o, target, depth=8):
+    """operand o is (a move/copy/clone of) local `target`: every definition of each temporary on the way is a use, a reference or a
+    Clone::clone of the previous one"""
+    if o["k"] not in ("copy", "move") or depth <= 0:
+        return False
+    p = o["p"]
+    if any(isinstance(e, dict) and "f" in e for e in p["p"]):
+        return False
+    l = p["l"]
+    if l == target:
+        return True
+    defs = B.defs.get(l, [])
+    if not defs:
+        return False
+    for (bi, si, kind, payload) in defs:
+        if kind == "assign":
+            rv = payload["rv"]
+            if rv["k"] == "use":
+                if not copy_of_local(B, rv["o"], target, depth - 1):
+                    return False
+            elif rv["k"] == "ref":
+                if not copy_of_local(B, {"k": "copy", "p": rv["p"]}, target, depth - 1):
+                    return False
+            else:
+                return False
+        elif kind == "call":
+            w, r = mir.callee_of(payload)
+            if not q.ends(r or w or "", "Clone::clone", "clone") or not copy_of_local(B, payload["args"][0], target, depth - 1):
+                return False
+        else:
+            return False
+    return True
+
+
 def run(F, R, tier):
     R.explanation = (
         "Decided clauses (the 'at or after the instant the query names' tick comparison under arbitrary tick sequences is NOT decided): "
@@ -102,11 +136,13 @@ def run(F, R, tier):
                          and all(b not in o[2] for n2, o in arms.items() if n2 != arm)]
                 okS = False
                 for b in sends:
-                    org = B.origins(B.blocks[b]["term"]["args"][1])
                     mutb = [m[0] for m in mut_uses if m[0] in region]
-                    after = all(b in B.reach([m]) for m in mutb)
-                    if any(o == ("unknown", "nodef:_%d" % sl) or (o[0] == "const" and o[1] == FLAGS + "NONE") for o in org) or \
-                            any(sl == x for x in [sl]) and after:
+                    hdr = q.outer_loop_header(B, b)
+                    cut = [hdr] if hdr is not None else []
+                    # within one iteration of the actor loop: the send follows each mutation and no mutation follows the send
+                    after = all(b in B.reach([m], cut_blocks=cut) and m not in B.reach([b], cut_blocks=cut) for m in mutb)
+                    # the value sent is a copy / clone of the state variable itself, read after every mutation of the arm
+                    if copy_of_local(B, B.blocks[b]["term"]["args"][1], sl) and after:
                         okS = True
                 R.check(okS and sends, "C16.R1", "C16.R1:%s:reply-post-value:%s" % (act["id"], arm), q.where(B, entry),
                         "%s replies with provision_state after the update" % arm)
